@@ -48,7 +48,8 @@ def gen_arg(rng, pname, L, kind):
                                                 '(uint:8', '0*(', 'hex:3', 'float:17', 'se, ue, bin', 'bits, bits', 'uint:99999', '', ',', 'a*(uint:8)', 'uint8=5', '<3q', 'x', 'u-1'])},
                            rng.choice([0, 1, 8, -1, L, L + 1]), {'intlist': [rng.choice([0, 1, 3, -1, L + 1]) for _ in range(rng.randrange(0, 3))]}])
     if pname in ('value', 'x', 'v', 'uint', 'int'):
-        return rng.choice([0, 1, -1, 255, 256, -129, 2 ** 70 if pname != 'x' else 300, 0.5, True, None, {'str': 'abc'}, 1e40])
+        return rng.choice([0, 1, -1, 255, 256, -129, 2 ** 70 if pname != 'x' else 300, 0.5, True, None, {'str': 'abc'}, 1e40] +
+                          ([smallbits(), {'str': ''}, {'str': '0b101'}, {'bits': ''}, {'list': []}] if pname == 'value' else []))
     if pname == 'bytealigned': return rng.choice([None, True, False, 1, 0])
     if pname == 'repeat': return rng.choice([True, False])
     if pname == 'sequence' or pname == 'iterable': return rng.choice([{'seq': [smallbits() for _ in range(rng.randrange(0, 3))]}, {'list': [1, 0, 1]}, {'str': '0b1'}, 5])
